@@ -281,12 +281,14 @@ impl Suite for Prog {
         }
         if start.is_some() {
             // only the sender is exercised when the counter is preset (wrap-around probe)
-            let (events, fe_log) = sender_stream(&prog, start);
-            let stream = canon_events(&events, &prog);
-            for e in &stream {
-                out.obs.push(format!("s {}", e.tok()));
+            // oracle only: the real sender panics in `Id::from_u64(0)` once the counter has wrapped
+            match std::panic::catch_unwind(std::panic::AssertUnwindSafe(|| sender_stream(&prog, start))) {
+                Ok((events, fe_log)) => {
+                    let stream = canon_events(&events, &prog);
+                    c12_oracle(&prog, &fe_log, &stream, u64::from(start.unwrap()), &mut out);
+                }
+                Err(_) => out.fails.push("C12 the sender panicked creating a span: the 32-bit span id counter wrapped to the invalid id 0 [span-id-wrap]".into()),
             }
-            c12_oracle(&prog, &fe_log, &stream, u64::from(start.unwrap()), &mut out);
             out.tags.push("sender-start-preset".into());
             return out;
         }
